@@ -243,8 +243,9 @@ def run_custom(tier, seed, repo_root="/repo", relock=False) -> int:
                           "HamiltonianData.noisy_samples); a wrong annotation in pulser could hide a call site",
                           "CPU only (CUDA_VISIBLE_DEVICES is emptied unless already set)"],
           "wall_s": round(time.time() - t0, 2), "violations": len(violations)}
-    os.makedirs(os.path.join(VERIF, "evidence"), exist_ok=True)
-    with open(os.path.join(VERIF, "evidence", f"{ID}.json"), "w") as f:
+    _evdir = os.environ.get("PYVC_EVIDENCE_DIR", os.path.join(VERIF, "evidence"))
+    os.makedirs(_evdir, exist_ok=True)
+    with open(os.path.join(_evdir, f"{ID}.json"), "w") as f:
         json.dump(ev, f, indent=1, default=str)
 
     # ---- report
